@@ -5,11 +5,14 @@
 package oracle
 
 import (
+	"bytes"
+	"encoding/json"
 	"fmt"
 	"sort"
 	"strings"
 	"time"
 
+	"github.com/moov-io/ach"
 	"verif/harness/gen"
 )
 
@@ -128,4 +131,26 @@ func Run(prop string, seed uint64, tier, replay string) *Result {
 	}()
 	res.WallS = time.Since(start).Seconds()
 	return res
+}
+
+// FileInput renders a file for a replay: description plus its NACHA text
+// (written without validation so that invalid files can be shown too).
+func FileInput(f *ach.File) map[string]any {
+	var buf bytes.Buffer
+	w := ach.NewWriter(&buf)
+	w.BypassValidation = true
+	text := ""
+	func() {
+		defer func() { recover() }()
+		if err := w.Write(f); err == nil {
+			text = buf.String()
+		} else {
+			text = "unwritable: " + err.Error()
+		}
+	}()
+	js, _ := json.Marshal(f)
+	if len(js) > 20000 {
+		js = js[:20000]
+	}
+	return map[string]any{"describe": gen.Describe(f), "nacha_text": text, "json": string(js)}
 }
